@@ -20,7 +20,25 @@ public:
 	friend void swap(small_vector &a, small_vector &b) {
 		using std::swap;
 		swap(a._allocator, b._allocator);
-		swap(a._array, b._array);
+		// Elements in the inline array live inside the vector itself: they change sides one by
+		// one through T's move constructor (T may point into itself), never as raw bytes.
+		if(a._is_small() && b._is_small()) {
+			auto ac = a._inline_array(), bc = b._inline_array();
+			size_t common = a._size < b._size ? a._size : b._size;
+			for(size_t i = 0; i < common; i++) {
+				T tmp(std::move(ac[i]));
+				ac[i].~T();
+				new (&ac[i]) T(std::move(bc[i]));
+				bc[i].~T();
+				new (&bc[i]) T(std::move(tmp));
+			}
+			_relocate(ac + common, a._size - common, bc + common);
+			_relocate(bc + common, b._size - common, ac + common);
+		}else if(a._is_small()) {
+			_relocate(a._inline_array(), a._size, b._inline_array());
+		}else if(b._is_small()) {
+			_relocate(b._inline_array(), b._size, a._inline_array());
+		}
 		swap(a._elements, b._elements);
 		swap(a._size, b._size);
 		swap(a._capacity, b._capacity);
@@ -196,17 +214,32 @@ private:
 		_capacity = new_capacity;
 	}
 
+	value_type *_inline_array() {
+		return reinterpret_cast<value_type*>(&_array[0].buffer);
+	}
+	const value_type *_inline_array() const {
+		return reinterpret_cast<const value_type*>(&_array[0].buffer);
+	}
+
 	value_type *_get_container() {
 		if (_is_small())
-			return reinterpret_cast<value_type*>(&_array[0].buffer);
+			return _inline_array();
 		else
 			return _elements;
 	}
 	const value_type *_get_container() const {
 		if (_is_small())
-			return reinterpret_cast<const value_type*>(&_array[0].buffer);
+			return _inline_array();
 		else
 			return _elements;
+	}
+
+	// Moves n elements from one (inline) array into raw storage and ends their lifetime in the old place.
+	static void _relocate(T *from, size_t n, T *to) {
+		for(size_t i = 0; i < n; i++) {
+			new (&to[i]) T(std::move(from[i]));
+			from[i].~T();
+		}
 	}
 
 	Allocator _allocator;
